@@ -305,13 +305,15 @@ def _temporary_candidates(fnode, known):
     for n in walk_no_nested(fnode):
         if isinstance(n, ast.Name):
             (stores if isinstance(n.ctx, (ast.Store, ast.Del)) else loads).setdefault(n.id, []).append(n)
-    return sorted(x for x in locs if x not in known and len(stores.get(x, [])) == 1 and len(loads.get(x, [])) == 1)
+    return sorted(x for x in locs if x not in known and len(stores.get(x, [])) == 1 and loads.get(x))
 
 
 def _inline_new_temporaries(fnode, known, only=None, limit=12):
     """A local that the reference version of the function does not have, that is assigned once (`x = E`, E free of random
-    draws) and read once, later in the same block with none of E's operands (nor x) reassigned in between, is a freshly
-    introduced temporary: its use is replaced by E and the definition dropped (the inverse of an extract-variable refactor)."""
+    draws) and read only in the following statements of the same block (at most 6 of them, no loop), with none of E's operands
+    (nor x) written in that stretch, is a freshly introduced temporary: its uses are replaced by E and the definition dropped
+    (the inverse of an extract-variable / common-subexpression refactoring)."""
+    import copy
     done = []
     for _ in range(limit):
         locs, params = _own_locals(fnode)
@@ -320,6 +322,26 @@ def _inline_new_temporaries(fnode, known, only=None, limit=12):
         for n in walk_no_nested(fnode):
             if isinstance(n, ast.Name):
                 (stores if isinstance(n.ctx, (ast.Store, ast.Del)) else loads).setdefault(n.id, []).append(n)
+        mutated = set()
+        for n in walk_no_nested(fnode):
+            tg = []
+            if isinstance(n, ast.Assign):
+                tg = n.targets
+            elif isinstance(n, (ast.AugAssign, ast.AnnAssign)):
+                tg = [n.target]
+            elif isinstance(n, ast.Call) and isinstance(n.func, ast.Attribute) and n.func.attr in (
+                    'append', 'extend', 'sort', 'fill', 'setflags', 'add', 'update', 'remove', 'pop', 'insert', 'resize', 'put', 'itemset'):
+                tg = [ast.Subscript(value=n.func.value, slice=ast.Constant(value=0), ctx=ast.Store())]
+            elif isinstance(n, ast.Call) and isinstance(n.func, ast.Attribute) and n.func.attr == 'fill_diagonal' and n.args:
+                tg = [ast.Subscript(value=n.args[0], slice=ast.Constant(value=0), ctx=ast.Store())]
+            for t in tg:
+                for tt in (t.elts if isinstance(t, (ast.Tuple, ast.List)) else [t]):
+                    if isinstance(tt, (ast.Subscript, ast.Attribute)) or isinstance(n, ast.AugAssign):
+                        bb = tt
+                        while isinstance(bb, (ast.Subscript, ast.Attribute)):
+                            bb = bb.value
+                        if isinstance(bb, ast.Name):
+                            mutated.add(bb.id)
         for owner in [fnode] + [x for x in walk_no_nested(fnode) if isinstance(x, (ast.If, ast.For, ast.While, ast.With, ast.Try))]:
             for field in ('body', 'orelse', 'finalbody'):
                 blk = getattr(owner, field, None)
@@ -329,34 +351,54 @@ def _inline_new_temporaries(fnode, known, only=None, limit=12):
                     if not (isinstance(st, ast.Assign) and len(st.targets) == 1 and isinstance(st.targets[0], ast.Name)):
                         continue
                     x = st.targets[0].id
-                    if x in known or x not in locs or len(stores.get(x, [])) != 1 or len(loads.get(x, [])) != 1 or (only is not None and x != only):
+                    if x in known or x not in locs or len(stores.get(x, [])) != 1 or not loads.get(x) or (only is not None and x != only):
                         continue
+                    if x in mutated:
+                        continue            # written through (`x[i] = ..`, `x += ..`, `x.attr = ..`): an object with state, not a name for a value
                     txt = ast.unparse(st.value)
                     if 'rng' in txt or 'random' in txt:
                         continue
                     operands = {n.id for n in ast.walk(st.value) if isinstance(n, ast.Name)}
-                    use = loads[x][0]
-                    # find the later statement of this block that contains the use
-                    for j in range(i + 1, min(i + 4, len(blk))):
+                    uses = loads[x]
+                    # the statements of this block, right after the definition, that hold all the uses
+                    holders = []
+                    remaining = set(id(u) for u in uses)
+                    ok = True
+                    for j in range(i + 1, min(i + 7, len(blk))):
                         holder = blk[j]
-                        if any(n is use for n in ast.walk(holder)):
-                            between = blk[i + 1:j]
-                            clobber = False
-                            for b in between + [holder]:
-                                for n in ast.walk(b):
-                                    if isinstance(n, ast.Name) and isinstance(n.ctx, (ast.Store, ast.Del)) and n.id in operands | {x} and b is not holder:
-                                        clobber = True
-                                    if isinstance(n, (ast.Subscript, ast.Attribute)) and isinstance(n.ctx, ast.Store) and b is not holder:
-                                        bb = n
-                                        while isinstance(bb, (ast.Subscript, ast.Attribute)):
-                                            bb = bb.value
-                                        if isinstance(bb, ast.Name) and bb.id in operands:
-                                            clobber = True
-                            if isinstance(holder, (ast.For, ast.While)) :
-                                clobber = True      # the use would be re-evaluated per iteration
-                            if not clobber:
-                                cand = (blk, i, st, use, holder)
+                        here = {id(n) for n in ast.walk(holder)} & remaining
+                        written = False
+                        for n in ast.walk(holder):
+                            if isinstance(n, ast.Name) and isinstance(n.ctx, (ast.Store, ast.Del)) and n.id in operands | {x}:
+                                written = True
+                            if isinstance(n, (ast.Subscript, ast.Attribute)) and isinstance(n.ctx, ast.Store):
+                                bb = n
+                                while isinstance(bb, (ast.Subscript, ast.Attribute)):
+                                    bb = bb.value
+                                if isinstance(bb, ast.Name) and bb.id in operands:
+                                    written = True
+                            if isinstance(n, ast.AugAssign):
+                                bb = n.target
+                                while isinstance(bb, (ast.Subscript, ast.Attribute)):
+                                    bb = bb.value
+                                if isinstance(bb, ast.Name) and bb.id in operands | {x}:
+                                    written = True
+                        remaining -= here
+                        if here:
+                            holders.append(holder)
+                        if isinstance(holder, (ast.For, ast.While)) and here and written:
+                            ok = False      # re-evaluated per iteration while an operand changes inside the loop
                             break
+                        if written and remaining:
+                            ok = False      # an operand changes while uses are still to come
+                            break
+                        if written and here and len(uses) > 1:
+                            # the statement both uses x and writes an operand: fine only if it is the last use
+                            pass
+                        if not remaining:
+                            break
+                    if ok and not remaining and holders:
+                        cand = (blk, i, st, uses, holders)
                     if cand:
                         break
                 if cand:
@@ -365,14 +407,16 @@ def _inline_new_temporaries(fnode, known, only=None, limit=12):
                 break
         if not cand:
             break
-        blk, i, st, use, holder = cand
+        blk, i, st, uses, holders = cand
+        ids = {id(u) for u in uses}
 
         class _Sub(ast.NodeTransformer):
             def visit_Name(self, n):
-                if n is use:
-                    return ast.copy_location(st.value, n)
+                if id(n) in ids:
+                    return ast.copy_location(copy.deepcopy(st.value), n)
                 return n
-        _Sub().visit(holder)
+        for h in holders:
+            _Sub().visit(h)
         del blk[i]
         done.append(st.targets[0].id)
     return done
@@ -756,6 +800,40 @@ class _ParentLoops:
         return set(self.loops.get(id(n), ()))
 
 
+def _renumber(fnode):
+    """After an expansion several statements share the line of the call.  Statements get strictly increasing line numbers in
+    program order again (rules compare positions); the numbers stay inside the function's own line range where possible."""
+    order = []
+
+    def rec(block):
+        for st in block:
+            order.append(st)
+            for field in ('body', 'orelse', 'finalbody'):
+                sub = getattr(st, field, None)
+                if isinstance(sub, list) and sub and isinstance(sub[0], ast.stmt):
+                    rec(sub)
+            for h in getattr(st, 'handlers', []) or []:
+                rec(h.body)
+    rec(fnode.body)
+    last = fnode.lineno
+    for st in order:
+        want = getattr(st, 'lineno', last + 1)
+        new = want if want > last else last + 1
+        delta = new - getattr(st, 'lineno', new)
+        if delta:
+            def own(node):
+                yield node
+                for ch in ast.iter_child_nodes(node):
+                    if not isinstance(ch, (ast.stmt, ast.ExceptHandler)):
+                        yield from own(ch)
+            for n in own(st):
+                if hasattr(n, 'lineno'):
+                    n.lineno = n.lineno + delta
+                    if getattr(n, 'end_lineno', None) is not None:
+                        n.end_lineno = n.end_lineno + delta
+        last = new
+
+
 def _fold_tuple_copies(fnode, known):
     """`a, t = f(..)` followed (next statement) by `X = t`, with t a name the reference does not have and used nowhere else:
     the element is written directly, `a, X = f(..)`."""
@@ -817,6 +895,7 @@ def normalise(prog, hints=None):
                 if exp:
                     # expansions can expose idioms the load-time spelling pass could not see (e.g. `helper(x) & mask`)
                     canonical(f.node, m._np_alias)
+                    _renumber(f.node)
                     done.setdefault(key, {}).update({h: '<expanded>' for h in exp})
             known = set(hints[key]['sig'])
             ref_shapes = hints[key].get('shapes')
